@@ -618,3 +618,70 @@ def kill_script(rng, size='quick'):
         else:
             lines.append('wait 20')
     return lines
+
+
+def cancel_scenario(rng, size='quick', **over):
+    """C14: operation futures are polled k times and dropped; detached blocking closures finish; then queries, further
+    operations, and a restart that re-parses every blob file (index files removed).  Timestamps are unique and
+    increasing and every cancellation is resolved by a restart before the next one, so that the oracle never has to
+    guess which of several dropped operations landed."""
+    c, line = cfg_line(rng, dup=1, rt=rng.choice(['ct', 'ct', 'mt']), maxdata=rng.choice([1000000, 1000000, 6]), **over)
+    klen = c['key']
+    keys = mk_keys(rng, klen, 3)
+    absent = absent_keys(rng, klen, keys)
+    lines = [line, 'states']
+    seed = 1
+    ts = 10
+
+    def data_op():
+        nonlocal seed, ts
+        ts += 1
+        if rng.random() < 0.25:
+            return f'd {rng.choice(keys)} {ts} - {rng.choice([0, 1])}'
+        seed += 1
+        return f'w {rng.choice(keys)} {ts} {rng.choice(METAS_W)} {rng.choice([0, 10, 300, 5000, 90000])} {seed % 250 + 1}'
+
+    def reads():
+        out = []
+        for kk in keys + absent[:1]:
+            out += [f'r {kk}', f'ram {kk}']
+        return out
+    for _ in range(rng.randint(2, 6)):
+        lines += [data_op(), 'states']
+        if rng.random() < 0.3:
+            lines += [rng.choice(['close_active', 'force always', 'settle']), 'states']
+    rounds = rng.randint(2, 5) if size == 'quick' else rng.randint(4, 14)
+    for _ in range(rounds):
+        k = rng.choice([1, 1, 2, 2, 3, 4, 5, 7, 10])
+        op = rng.choice([data_op(), data_op(), data_op(), 'close_active', 'create_active', 'restore_active'])
+        lines += [f'cancel {k} {op}', 'states'] + reads()
+        lines += [data_op(), 'states', 'alive']
+        if rng.random() < 0.3:
+            lines += ['settle', 'states']
+        if rng.random() < 0.25:
+            # first a start that keeps the index files (finding E20 shows here), then one that re-parses the blobs
+            lines += ['restart', 'states'] + reads()
+        lines += [rng.choice(['restart noidx', 'restart noidx', 'restart noidx lazy']), 'states', 'corruptedx'] + reads()
+    lines += ['restart noidx', 'states', 'corruptedx', 'counts'] + reads()
+    return lines
+
+
+def conc_scenario(rng, size='quick', **over):
+    """C08: N concurrent clients (writes / probes / reads / deletes with unique increasing timestamps) on a fresh and on
+    a reopened blob, with rotation by record limit and optionally a maintenance task"""
+    maxdata = rng.choice([1000000, 50, 20, 7])
+    c, line = cfg_line(rng, dup=1, maxdata=maxdata, rt=rng.choice(['mt', 'mt', 'ct']), dirty=rng.choice([0, 4096, 33554432]), **over)
+    klen = c['key']
+    keys = mk_keys(rng, klen, 2)
+    lines = [line, 'states']
+    for i, k in enumerate(keys):
+        lines += [f'w {k} 5 - 10 {i + 1}', 'states']
+    lines.append('nomodel')
+    clients = rng.choice([2, 4, 8, 16, 64]) if size == 'quick' else rng.choice([2, 8, 32, 128, 500, 2000])
+    nops = rng.choice([10, 30]) if clients <= 64 else 4
+    lines.append(f'conc {clients} {nops} {rng.randrange(1, 10**6)}' + (' maint' if rng.random() < 0.5 else ''))
+    lines += ['alive', 'settle', 'restart', 'wait 260']
+    clients2 = rng.choice([2, 8, 32])
+    lines.append(f'conc {clients2} {rng.choice([10, 20])} {rng.randrange(1, 10**6)}' + (' maint' if rng.random() < 0.3 else ''))
+    lines += ['alive', 'restart noidx', 'corruptedx']
+    return lines
